@@ -659,3 +659,386 @@ Proof.
   vm_compute in Pa. injection Pa as <-. vm_compute in Po. injection Po as <-.
   repeat split; vm_compute; reflexivity.
 Qed.
+
+(* ================================================================================================== *)
+(* added from Properties/C09_add.v (2026-10-01)                                              *)
+(* ================================================================================================== *)
+(* ================================================================================================================= *)
+(* C09 (addition): reads over include graphs in any mix of JSON and native files, native files WITH comments          *)
+(* ================================================================================================================= *)
+(* C09_read_mixed_formats wants every native file to be the canonical rendering of its document (include lines followed
+   by to_string_plain).  Here a native file may be ANY text t that denotes the document (ins, kvs):
+     native_equiv P com t ins kvs :  for every folder dir and counter c >= -1, parse_string com dir c t succeeds and
+        (i)   its data, with the include placeholder entries dropped at top level and every entry whose key is of class P
+              dropped at EVERY dict level (odata P), are kvs;
+        (ii)  its include table lists, in order, the paths path_join dir name of the names of ins;
+        (iii) it registers no expression; the counter stays >= -1.
+   P is a class of comment placeholder keys (P k = true -> is_ckey k = true; is_ckey: what SDict._clean_data takes for a
+   block/line comment key).  P = is_ckey: all comment entries are ignored (opart_c); P = no_key: nothing is ignored, and
+   the statement is C09_read_mixed_formats again.  Nothing is asked of the comment entries themselves (values, tables).
+   The header block comment NativeFormatter writes ( /*---...*- C++ -*...*\ filetype dictionary; ... \*---*/ : the
+   filetype line is part of the comment, no data) is one such comment entry: C09_native_equiv_written. *)
+From Coq Require Import String.
+From Coq Require Import NArith ZArith List Bool Lia.
+From DictIO Require Import Chars Str Value Scalar KeyPath SDict Layout Lexer TokParser Reader TreeSpec NativeSpec LayoutSpec E2ESpec.
+From DictIO Require Import E2EProofs E2EFullProofs JsonNativeProofs JsonNativeRead JsonNativeCommented.
+From DictIO Require RereadTree RereadWrite RereadProofs RereadOff RereadIncWrite RereadIncProofs.
+Import ListNotations.
+Open Scope N_scope.
+
+(* the generic statement: any class P of comment placeholder keys, comments on or off on either side *)
+Theorem C09_read_mixed_formats_commented_gen : forall P, (forall k, P k = true -> is_ckey k = true) ->
+  forall com1 com2 fs1 fs2 root c1 c2, fs_rel_c P com1 com2 fs1 fs2 -> (-1 <= c1)%Z -> (-1 <= c2)%Z ->
+  same_read_c P (read_plain fs1 root true com1 c1) (read_plain fs2 root true com2 c2).
+Proof. exact read_mixed_formats_c. Qed.
+Print Assumptions C09_read_mixed_formats_commented_gen.
+
+(* P = is_ckey, comments on: for ANY include graph and ANY assignment of formats, every native file any text that denotes
+   its document up to comments: both reads fail alike (only: root missing) or the ordinary data up to comments
+   (opart_c: include placeholders dropped at top level, comment placeholder entries at every dict level) are the same list *)
+Theorem C09_read_mixed_formats_commented : forall fs1 fs2 root c1 c2, fs_rel_commented fs1 fs2 -> (-1 <= c1)%Z -> (-1 <= c2)%Z ->
+  same_read_commented (read_plain fs1 root true true c1) (read_plain fs2 root true true c2).
+Proof. exact read_mixed_formats_commented. Qed.
+Print Assumptions C09_read_mixed_formats_commented.
+
+(* opart_c is opart followed by the removal of the comment placeholder entries at every dict level *)
+Theorem C09_opart_c_spec : forall d, opart_c d = kvs_of (pdrop is_ckey (Dict (opart d))).
+Proof. exact opart_c_spec. Qed.
+Print Assumptions C09_opart_c_spec.
+
+(* the existing theorem (statement verbatim) from the generic one with P = no_key; and its file relation is an instance
+   of the commented one *)
+Theorem C09_read_mixed_formats_from_commented : forall fs1 fs2 root c1 c2, fs_rel fs1 fs2 -> (-1 <= c1)%Z -> (-1 <= c2)%Z ->
+  same_read (read_plain fs1 root true true c1) (read_plain fs2 root true true c2).
+Proof. exact read_mixed_formats_from_commented. Qed.
+Print Assumptions C09_read_mixed_formats_from_commented.
+
+Theorem C09_fs_rel_commented_of_fs_rel : forall fs1 fs2, fs_rel fs1 fs2 -> fs_rel_commented fs1 fs2.
+Proof. exact fs_rel_commented_of_fs_rel. Qed.
+Print Assumptions C09_fs_rel_commented_of_fs_rel.
+
+(* files that denote a document: (a) the canonical rendering, comments on or off; *)
+Theorem C09_native_equiv_canonical : forall P, (forall k, P k = true -> is_ckey k = true) -> forall com ins kvs,
+  udoc_okb ins kvs = true -> native_equiv P com (inc_text (inames ins) ++ to_string_plain kvs) ins kvs.
+Proof. exact native_equiv_canonical. Qed.
+Print Assumptions C09_native_equiv_canonical.
+
+(* (b) what NativeFormatter.to_string writes for an SDict of the class rereadable_inc (C12: comments at any dict level --
+   on lines of their own --, the default header in front unless the SDict begins with a marked header of its own, include
+   entries at top level), whose data without comment and include entries are kvs and whose include entries name the files
+   of ins *)
+Theorem C09_native_equiv_written : forall s ins kvs, RereadIncWrite.rereadable_inc s = true ->
+  (Z.of_nat (length (sd_lc s)) < 1000000)%Z ->
+  (Z.of_nat (length (RereadProofs.lc_list (RereadIncProofs.written_doc_inc s))) < 1000000)%Z ->
+  (Z.of_nat (length (RereadProofs.bc_list (RereadIncProofs.written_doc_inc s))) <= 1000000)%Z ->
+  (Z.of_nat (length (RereadProofs.lit_list (RereadIncProofs.written_doc_inc s))) <= 1000000)%Z ->
+  udoc_okb ins kvs = true ->
+  RereadTree.cstrip (Dict (sd_data (RereadIncWrite.strip_inc s))) = Dict kvs -> RereadIncWrite.inc_names s = inames ins ->
+  native_equiv is_ckey true (to_string_sd s) ins kvs.
+Proof. exact native_equiv_written. Qed.
+Print Assumptions C09_native_equiv_written.
+
+(* ---- non-vacuity: three files ------------------------------------------------------------------------------------ *)
+(* root includes a, a includes sub/c; x in all three, y in root and a with different sub-keys.
+   fsA: root native AS THE WRITER WRITES IT (default header, a line comment, a block comment inside the dict y),
+        a JSON, sub/c native without header (canonical rendering).
+   fsB: every format swapped: root JSON, a native as the writer writes it (default header, a line comment between two
+        entries and one inside the dict y), sub/c JSON. *)
+Definition c09h_ph (w : str) (i : N) : key * tree := (KS (placeholder w i), Leaf (SStr (placeholder w i))).
+Definition c09h_root : list (str * str) * list (key * tree) :=
+  ([(of_string "#include a", of_string "a")],
+   [(KS (of_string "x"), Leaf (SInt 1)); (KS (of_string "s"), Leaf (SStr (of_string "two words")));
+    (KS (of_string "y"), Dict [(KS (of_string "p"), Leaf (SInt 1))])]).
+Definition c09h_a : list (str * str) * list (key * tree) :=
+  ([(of_string "#include c", of_string "sub/c")],
+   [(KS (of_string "x"), Leaf (SInt 2)); (KS (of_string "y"), Dict [(KS (of_string "q"), Leaf (SInt 2))]);
+    (KS (of_string "z"), Leaf (SBool true))]).
+Definition c09h_c : list (str * str) * list (key * tree) :=
+  ([], [(KS (of_string "w"), Leaf (SStr (of_string "deep"))); (KS (of_string "x"), Leaf (SInt 3))]).
+Definition c09h_root_sd : sdict :=
+  mkSD [ c09h_ph w_LINECOMMENT 9; c09h_ph w_INCLUDE 7; (KS (of_string "x"), Leaf (SInt 1));
+         (KS (of_string "s"), Leaf (SStr (of_string "two words")));
+         (KS (of_string "y"), Dict [c09h_ph w_BLOCKCOMMENT 5; (KS (of_string "p"), Leaf (SInt 1))]) ]
+       [(9, of_string "// the root file")] [(5, of_string "/* inside y */")]
+       [(7, (of_string "#include a", of_string "a", of_string "/r/a"))] [].
+Definition c09h_a_sd : sdict :=
+  mkSD [ c09h_ph w_INCLUDE 3; (KS (of_string "x"), Leaf (SInt 2)); c09h_ph w_LINECOMMENT 4;
+         (KS (of_string "y"), Dict [(KS (of_string "q"), Leaf (SInt 2)); c09h_ph w_LINECOMMENT 6]); (KS (of_string "z"), Leaf (SBool true)) ]
+       [(4, of_string "// between x and y"); (6, of_string "// last in y")] []
+       [(3, (of_string "#include sub/c", of_string "sub/c", of_string "/r/sub/c"))] [].
+Definition c09h_J (d : list (str * str) * list (key * tree)) : funit := render_json (fst d) (snd d).
+Definition c09h_N (d : list (str * str) * list (key * tree)) : funit := render_native (fst d) (snd d).
+Definition c09h_fsA : fsys :=
+  [(of_string "/r/root", FNative (to_string_sd c09h_root_sd)); (of_string "/r/a", c09h_J c09h_a); (of_string "/r/sub/c", c09h_N c09h_c)].
+Definition c09h_fsB : fsys :=
+  [(of_string "/r/root", c09h_J c09h_root); (of_string "/r/a", FNative (to_string_sd c09h_a_sd)); (of_string "/r/sub/c", c09h_J c09h_c)].
+Definition c09h_merged : list (key * tree) :=
+  [(KS (of_string "x"), Leaf (SInt 1)); (KS (of_string "s"), Leaf (SStr (of_string "two words")));
+   (KS (of_string "y"), Dict [(KS (of_string "p"), Leaf (SInt 1)); (KS (of_string "q"), Leaf (SInt 2))]);
+   (KS (of_string "z"), Leaf (SBool true)); (KS (of_string "w"), Leaf (SStr (of_string "deep")))].
+
+(* the two written files, by the theorem *)
+Example C09_native_equiv_written_nonvacuous :
+  to_string_sd c09h_root_sd = of_string
+"/*---------------------------------*- C++ -*----------------------------------*\
+filetype dictionary; coding utf-8; version 0.1; local --; purpose --;
+\*----------------------------------------------------------------------------*/
+#include a
+// the root file
+x                             1;
+s                             'two words';
+y
+{
+    /* inside y */
+    p                         1;
+}
+" /\
+  to_string_sd c09h_a_sd = of_string
+"/*---------------------------------*- C++ -*----------------------------------*\
+filetype dictionary; coding utf-8; version 0.1; local --; purpose --;
+\*----------------------------------------------------------------------------*/
+#include 'sub/c'
+x                             2;
+// between x and y
+y
+{
+    q                         2;
+    // last in y
+}
+z                             true;
+" /\
+  native_equiv is_ckey true (to_string_sd c09h_root_sd) (fst c09h_root) (snd c09h_root) /\
+  native_equiv is_ckey true (to_string_sd c09h_a_sd) (fst c09h_a) (snd c09h_a) /\
+  (* what the parse of the root file looks like at counter 41 (computed): header, include and line comment entries first *)
+  (exists p, parse_string true (of_string "/r") 41 (to_string_sd c09h_root_sd) = Ok p /\
+     map fst (sd_data (pr_sd p)) =
+       [KS (of_string "BLOCKCOMMENT000000"); KS (of_string "INCLUDE000043"); KS (of_string "LINECOMMENT000042");
+        KS (of_string "x"); KS (of_string "s"); KS (of_string "y")] /\
+     opart (sd_data (pr_sd p)) <> snd c09h_root /\ opart_c (sd_data (pr_sd p)) = snd c09h_root).
+Proof.
+  split; [vm_compute; reflexivity|]. split; [vm_compute; reflexivity|]. split; [|split].
+  - apply C09_native_equiv_written; vm_compute; first [reflexivity|discriminate].
+  - apply C09_native_equiv_written; vm_compute; first [reflexivity|discriminate].
+  - vm_compute. eexists. split; [reflexivity|]. split; [reflexivity|]. split; [discriminate|reflexivity].
+Qed.
+
+Example C09_read_mixed_formats_commented_nonvacuous :
+  fs_rel_commented c09h_fsA c09h_fsB /\
+  (* the canonical relation of C09_read_mixed_formats does NOT hold: the root file of fsA is no canonical rendering *)
+  FNative (to_string_sd c09h_root_sd) <> c09h_N c09h_root /\
+  (* computed: both reads succeed; the comment entries are there (the data differ, also after opart); opart_c agrees *)
+  (exists sA cA sB cB, read_plain c09h_fsA (of_string "/r/root") true true 41 = Ok (sA, cA) /\
+                       read_plain c09h_fsB (of_string "/r/root") true true 7 = Ok (sB, cB) /\
+                       opart_c (sd_data sA) = c09h_merged /\ opart_c (sd_data sB) = c09h_merged /\
+                       opart (sd_data sA) <> opart (sd_data sB) /\
+                       map fst (sd_data sA) =
+                         [KS (of_string "BLOCKCOMMENT000000"); KS (of_string "INCLUDE000043"); KS (of_string "LINECOMMENT000042");
+                          KS (of_string "x"); KS (of_string "s"); KS (of_string "y"); KS (of_string "INCLUDE000045");
+                          KS (of_string "z"); KS (of_string "w")] /\
+                       map fst (sd_data sB) =
+                         [KS (of_string "INCLUDE000008"); KS (of_string "x"); KS (of_string "s"); KS (of_string "y");
+                          KS (of_string "BLOCKCOMMENT000000"); KS (of_string "INCLUDE000011"); KS (of_string "LINECOMMENT000009");
+                          KS (of_string "z"); KS (of_string "w")] /\
+                       cA = 45%Z /\ cB = 11%Z) /\
+  (* by the theorem *)
+  same_read_commented (read_plain c09h_fsA (of_string "/r/root") true true 41) (read_plain c09h_fsB (of_string "/r/root") true true 7).
+Proof.
+  destruct C09_native_equiv_written_nonvacuous as (_ & _ & Wr & Wa & _).
+  assert (Ur : udoc_okb (fst c09h_root) (snd c09h_root) = true) by (vm_compute; reflexivity).
+  assert (Ua : udoc_okb (fst c09h_a) (snd c09h_a) = true) by (vm_compute; reflexivity).
+  assert (Uc : udoc_okb (fst c09h_c) (snd c09h_c) = true) by (vm_compute; reflexivity).
+  assert (Hrel : fs_rel_commented c09h_fsA c09h_fsB).
+  { constructor; [|constructor; [|constructor; [|constructor]]]; (split; [reflexivity|]); cbn [snd].
+    - exists (fst c09h_root), (snd c09h_root). split; [exact Ur|]. split; [exact Wr|reflexivity].
+    - exists (fst c09h_a), (snd c09h_a). split; [exact Ua|]. split; [reflexivity|exact Wa].
+    - exists (fst c09h_c), (snd c09h_c). split; [exact Uc|]. split; [|reflexivity].
+      exact (C09_native_equiv_canonical is_ckey (fun k H => H) true _ _ Uc). }
+  split; [exact Hrel|]. split; [vm_compute; discriminate|]. split.
+  - vm_compute. do 4 eexists. split; [reflexivity|]. split; [reflexivity|]. split; [reflexivity|]. split; [reflexivity|].
+    split; [discriminate|]. split; [reflexivity|]. split; [reflexivity|]. split; reflexivity.
+  - exact (C09_read_mixed_formats_commented c09h_fsA c09h_fsB (of_string "/r/root") 41%Z 7%Z Hrel ltac:(discriminate) ltac:(discriminate)).
+Qed.
+
+(* the generic statement at P = is_ckey is the commented one (same graph) *)
+Example C09_read_mixed_formats_commented_gen_nonvacuous :
+  fs_rel_c is_ckey true true c09h_fsA c09h_fsB /\
+  same_read_c is_ckey (read_plain c09h_fsA (of_string "/r/root") true true 41) (read_plain c09h_fsB (of_string "/r/root") true true 7).
+Proof.
+  pose proof (proj1 C09_read_mixed_formats_commented_nonvacuous) as Hrel. split; [exact Hrel|].
+  exact (C09_read_mixed_formats_commented_gen is_ckey (fun k H => H) true true _ _ (of_string "/r/root") 41%Z 7%Z Hrel ltac:(discriminate) ltac:(discriminate)).
+Qed.
+
+(* the existing theorem obtained from the generic one: the same graph with canonical native files *)
+Definition c09h_fsC : fsys :=
+  [(of_string "/r/root", c09h_N c09h_root); (of_string "/r/a", c09h_J c09h_a); (of_string "/r/sub/c", c09h_N c09h_c)].
+Definition c09h_fsD : fsys :=
+  [(of_string "/r/root", c09h_J c09h_root); (of_string "/r/a", c09h_N c09h_a); (of_string "/r/sub/c", c09h_J c09h_c)].
+Example C09_read_mixed_formats_from_commented_nonvacuous :
+  fs_rel c09h_fsC c09h_fsD /\ fs_rel_commented c09h_fsC c09h_fsD /\
+  (exists sC cC sD cD, read_plain c09h_fsC (of_string "/r/root") true true 41 = Ok (sC, cC) /\
+                       read_plain c09h_fsD (of_string "/r/root") true true 7 = Ok (sD, cD) /\
+                       opart (sd_data sC) = c09h_merged /\ opart (sd_data sD) = c09h_merged) /\
+  same_read (read_plain c09h_fsC (of_string "/r/root") true true 41) (read_plain c09h_fsD (of_string "/r/root") true true 7).
+Proof.
+  assert (Hrel : fs_rel c09h_fsC c09h_fsD).
+  { assert (U : forall d, udoc_okb (fst d) (snd d) = true -> same_content (c09h_J d) (c09h_N d) /\ same_content (c09h_N d) (c09h_J d)).
+    { intros d Hd. split; exists (fst d), (snd d); (split; [exact Hd|]); split; first [left; reflexivity|right; reflexivity]. }
+    repeat constructor; cbn [fst snd]; first [apply (U c09h_root)|apply (U c09h_a)|apply (U c09h_c)]; vm_compute; reflexivity. }
+  split; [exact Hrel|]. split; [exact (C09_fs_rel_commented_of_fs_rel _ _ Hrel)|]. split.
+  - vm_compute. do 4 eexists. split; [reflexivity|]. split; [reflexivity|]. split; reflexivity.
+  - exact (C09_read_mixed_formats_from_commented c09h_fsC c09h_fsD (of_string "/r/root") 41%Z 7%Z Hrel ltac:(discriminate) ltac:(discriminate)).
+Qed.
+
+Example C09_opart_c_spec_nonvacuous :
+  let d := [c09h_ph w_BLOCKCOMMENT 0; c09h_ph w_INCLUDE 43; (KS (of_string "y"), Dict [c09h_ph w_LINECOMMENT 5; (KS (of_string "p"), Leaf (SInt 1))])] in
+  opart_c d = kvs_of (pdrop is_ckey (Dict (opart d))) /\
+  opart d = [c09h_ph w_BLOCKCOMMENT 0; (KS (of_string "y"), Dict [c09h_ph w_LINECOMMENT 5; (KS (of_string "p"), Leaf (SInt 1))])] /\
+  opart_c d = [(KS (of_string "y"), Dict [(KS (of_string "p"), Leaf (SInt 1))])].
+Proof. intros d. split; [exact (C09_opart_c_spec d)|]. split; vm_compute; reflexivity. Qed.
+
+Example C09_native_equiv_canonical_nonvacuous :
+  udoc_okb (fst c09h_a) (snd c09h_a) = true /\
+  native_equiv is_ckey false (inc_text (inames (fst c09h_a)) ++ to_string_plain (snd c09h_a)) (fst c09h_a) (snd c09h_a) /\
+  (exists p, parse_string false (of_string "/r") 41 (inc_text (inames (fst c09h_a)) ++ to_string_plain (snd c09h_a)) = Ok p /\
+     odata is_ckey (sd_data (pr_sd p)) = snd c09h_a /\ map ipath (sd_inc (pr_sd p)) = [of_string "/r/sub/c"]).
+Proof.
+  assert (Ua : udoc_okb (fst c09h_a) (snd c09h_a) = true) by (vm_compute; reflexivity).
+  split; [exact Ua|]. split; [exact (C09_native_equiv_canonical is_ckey (fun k H => H) false _ _ Ua)|].
+  vm_compute. eexists. split; [reflexivity|]. split; reflexivity.
+Qed.
+
+(* ---- comments switched off on one side ----------------------------------------------------------------------------- *)
+(* fs_rel_on_off fs1 fs2 = fs_rel_c is_ckey true false fs1 fs2: the native files of fs1 denote their documents when parsed
+   with comments on, those of fs2 when parsed with comments off.  fs1 read with comments = true, fs2 with comments = false:
+   the ordinary data up to comments are the same. *)
+Theorem C09_read_mixed_formats_comments_off : forall fs1 fs2 root c1 c2, fs_rel_on_off fs1 fs2 -> (-1 <= c1)%Z -> (-1 <= c2)%Z ->
+  same_read_commented (read_plain fs1 root true true c1) (read_plain fs2 root true false c2).
+Proof. exact read_mixed_formats_comments_off. Qed.
+Print Assumptions C09_read_mixed_formats_comments_off.
+
+(* a written file WITHOUT include entries (class RereadTree.rereadable: default header, comments at any dict level) read
+   with comments off denotes its data without the comment entries *)
+Theorem C09_native_equiv_written_off : forall P, (forall k, P k = true -> is_ckey k = true) -> forall s kvs,
+  RereadTree.rereadable s = true ->
+  (Z.of_nat (length (RereadProofs.lc_list (RereadProofs.written_doc s))) <= 1000000)%Z ->
+  (Z.of_nat (length (RereadProofs.bc_list (RereadProofs.written_doc s))) <= 1000000)%Z ->
+  (Z.of_nat (length (RereadProofs.lit_list (RereadProofs.written_doc s))) <= 1000000)%Z ->
+  udoc_okb [] kvs = true -> RereadTree.cstrip (Dict (sd_data s)) = Dict kvs ->
+  native_equiv P false (to_string_sd s) [] kvs.
+Proof. exact native_equiv_written_off. Qed.
+Print Assumptions C09_native_equiv_written_off.
+
+(* native_equiv in terms of the canonical rendering: same dropped data, same include paths, for every folder and counter *)
+Theorem C09_native_equiv_iff_canonical : forall P, (forall k, P k = true -> is_ckey k = true) -> forall com t ins kvs,
+  udoc_okb ins kvs = true ->
+  (native_equiv P com t ins kvs <->
+   forall dir c, (-1 <= c)%Z -> exists p p0,
+     parse_string com dir c t = Ok p /\ parse_string com dir c (inc_text (inames ins) ++ to_string_plain kvs) = Ok p0 /\
+     odata P (sd_data (pr_sd p)) = odata P (sd_data (pr_sd p0)) /\ map ipath (sd_inc (pr_sd p)) = map ipath (sd_inc (pr_sd p0)) /\
+     sd_expr (pr_sd p) = [] /\ (-1 <= pr_count p)%Z).
+Proof. exact native_equiv_iff_canonical. Qed.
+Print Assumptions C09_native_equiv_iff_canonical.
+
+(* fs1 = c09h_fsA (root as written with header and comments, a JSON, sub/c canonical) read with comments on;
+   fs2 = root JSON, a canonical native (with its include line), sub/c AS WRITTEN (default header, a line comment, a block
+   comment) read with comments off *)
+Definition c09h_c_sd : sdict :=
+  mkSD [ c09h_ph w_LINECOMMENT 1; (KS (of_string "w"), Leaf (SStr (of_string "deep"))); c09h_ph w_BLOCKCOMMENT 2;
+         (KS (of_string "x"), Leaf (SInt 3)) ]
+       [(1, of_string "// the deepest file")] [(2, of_string "/* x is shadowed */")] [] [].
+Definition c09h_fsE : fsys :=
+  [(of_string "/r/root", c09h_J c09h_root); (of_string "/r/a", c09h_N c09h_a); (of_string "/r/sub/c", FNative (to_string_sd c09h_c_sd))].
+
+Example C09_native_equiv_written_off_nonvacuous :
+  to_string_sd c09h_c_sd = of_string
+"/*---------------------------------*- C++ -*----------------------------------*\
+filetype dictionary; coding utf-8; version 0.1; local --; purpose --;
+\*----------------------------------------------------------------------------*/
+/* x is shadowed */
+// the deepest file
+w                             deep;
+x                             3;
+" /\
+  native_equiv is_ckey false (to_string_sd c09h_c_sd) [] (snd c09h_c) /\
+  (exists p, parse_string false (of_string "/r/sub") 9 (to_string_sd c09h_c_sd) = Ok p /\ sd_data (pr_sd p) = snd c09h_c /\
+     map fst (sd_lc (pr_sd p)) = [10] /\ map fst (sd_bc (pr_sd p)) = [0; 1] /\ pr_count p = 10%Z).
+Proof.
+  split; [vm_compute; reflexivity|]. split.
+  - apply (C09_native_equiv_written_off is_ckey (fun k H => H)); vm_compute; first [reflexivity|discriminate].
+  - vm_compute. eexists. split; [reflexivity|]. repeat split; reflexivity.
+Qed.
+
+Example C09_read_mixed_formats_comments_off_nonvacuous :
+  fs_rel_on_off c09h_fsA c09h_fsE /\
+  (exists sA cA sE cE, read_plain c09h_fsA (of_string "/r/root") true true 41 = Ok (sA, cA) /\
+                       read_plain c09h_fsE (of_string "/r/root") true false 7 = Ok (sE, cE) /\
+                       opart_c (sd_data sA) = c09h_merged /\ opart_c (sd_data sE) = c09h_merged /\
+                       opart (sd_data sA) <> opart (sd_data sE) /\
+                       map fst (sd_data sE) =
+                         [KS (of_string "INCLUDE000008"); KS (of_string "x"); KS (of_string "s"); KS (of_string "y");
+                          KS (of_string "INCLUDE000009"); KS (of_string "z"); KS (of_string "w")] /\
+                       (* the comment tables are filled although comments are off (C12) *)
+                       map fst (sd_lc sE) = [10] /\ map fst (sd_bc sE) = [0; 1] /\ cA = 45%Z /\ cE = 10%Z) /\
+  same_read_commented (read_plain c09h_fsA (of_string "/r/root") true true 41) (read_plain c09h_fsE (of_string "/r/root") true false 7).
+Proof.
+  destruct C09_native_equiv_written_nonvacuous as (_ & _ & Wr & _ & _).
+  destruct C09_native_equiv_written_off_nonvacuous as (_ & Wc & _).
+  assert (Ur : udoc_okb (fst c09h_root) (snd c09h_root) = true) by (vm_compute; reflexivity).
+  assert (Ua : udoc_okb (fst c09h_a) (snd c09h_a) = true) by (vm_compute; reflexivity).
+  assert (Uc : udoc_okb (fst c09h_c) (snd c09h_c) = true) by (vm_compute; reflexivity).
+  assert (Hrel : fs_rel_on_off c09h_fsA c09h_fsE).
+  { constructor; [|constructor; [|constructor; [|constructor]]]; (split; [reflexivity|]); cbn [snd].
+    - exists (fst c09h_root), (snd c09h_root). split; [exact Ur|]. split; [exact Wr|reflexivity].
+    - exists (fst c09h_a), (snd c09h_a). split; [exact Ua|]. split; [reflexivity|].
+      exact (C09_native_equiv_canonical is_ckey (fun k H => H) false _ _ Ua).
+    - exists (fst c09h_c), (snd c09h_c). split; [exact Uc|]. split; [|exact Wc].
+      exact (C09_native_equiv_canonical is_ckey (fun k H => H) true _ _ Uc). }
+  split; [exact Hrel|]. split.
+  - vm_compute. do 4 eexists. split; [reflexivity|]. split; [reflexivity|]. split; [reflexivity|]. split; [reflexivity|].
+    split; [discriminate|]. repeat split; reflexivity.
+  - exact (C09_read_mixed_formats_comments_off c09h_fsA c09h_fsE (of_string "/r/root") 41%Z 7%Z Hrel ltac:(discriminate) ltac:(discriminate)).
+Qed.
+
+(* native_equiv_iff_canonical on the written root file: from folder /q and counter 999998 (the numbering wraps) the written
+   file and the canonical rendering parse to the same dropped data and the same include paths *)
+Example C09_native_equiv_iff_canonical_nonvacuous :
+  forall dir c, (-1 <= c)%Z -> exists p p0,
+    parse_string true dir c (to_string_sd c09h_root_sd) = Ok p /\
+    parse_string true dir c (inc_text (inames (fst c09h_root)) ++ to_string_plain (snd c09h_root)) = Ok p0 /\
+    odata is_ckey (sd_data (pr_sd p)) = odata is_ckey (sd_data (pr_sd p0)) /\
+    map ipath (sd_inc (pr_sd p)) = map ipath (sd_inc (pr_sd p0)) /\ sd_expr (pr_sd p) = [] /\ (-1 <= pr_count p)%Z.
+Proof.
+  assert (Ur : udoc_okb (fst c09h_root) (snd c09h_root) = true) by (vm_compute; reflexivity).
+  exact (proj1 (C09_native_equiv_iff_canonical is_ckey (fun k H => H) true _ _ _ Ur) (proj1 (proj2 (proj2 C09_native_equiv_written_nonvacuous)))).
+Qed.
+
+(* ---- findings: what native_equiv excludes (each computed on the model and confirmed on the library: DictReader.read) --- *)
+Definition c09h_data (r : res (sdict * Z)) : option (list (key * tree)) :=
+  match r with Ok (s, _) => Some (opart_c (sd_data s)) | Raise _ => None end.
+(* (g) a hand-written native file with a comment between a key and its value does not denote {a: 1, b: 2}: read with
+       comments on THE ENTRY a IS LOST (library: "tokens skipped" is logged; result {BLOCKCOMMENT000000, b}); the JSON file
+       and the same native file read with comments off give both entries *)
+Example C09_comment_behind_key_finding :
+  let doc := [(KS (of_string "a"), Leaf (SInt 1)); (KS (of_string "b"), Leaf (SInt 2))] in
+  let fsN := [(of_string "/r/k", FNative (of_string "a /* c */ 1; b 2;
+"))] in
+  let fsJ := [(of_string "/r/k", FJson doc)] in
+  udoc_okb [] doc = true /\
+  c09h_data (read_plain fsN (of_string "/r/k") true true 0) = Some [(KS (of_string "b"), Leaf (SInt 2))] /\
+  c09h_data (read_plain fsJ (of_string "/r/k") true true 0) = Some doc /\
+  c09h_data (read_plain fsN (of_string "/r/k") true false 0) = Some doc.
+Proof. vm_compute. repeat split; reflexivity. Qed.
+
+(* (h) a comment inside a list: its placeholder becomes a list ITEM (library: {'a': [1, 'BLOCKCOMMENT000000', 2]}); opart_c
+       drops comment entries of dicts, list items are values *)
+Example C09_comment_in_list_finding :
+  let doc := [(KS (of_string "a"), Lst [Leaf (SInt 1); Leaf (SInt 2)]); (KS (of_string "b"), Leaf (SInt 2))] in
+  let fsN := [(of_string "/r/l", FNative (of_string "a ( 1 /* c */ 2 ); b 2;
+"))] in
+  let fsJ := [(of_string "/r/l", FJson doc)] in
+  udoc_okb [] doc = true /\
+  c09h_data (read_plain fsN (of_string "/r/l") true true 0) =
+    Some [(KS (of_string "a"), Lst [Leaf (SInt 1); Leaf (SStr (of_string "BLOCKCOMMENT000000")); Leaf (SInt 2)]); (KS (of_string "b"), Leaf (SInt 2))] /\
+  c09h_data (read_plain fsJ (of_string "/r/l") true true 0) = Some doc /\
+  c09h_data (read_plain fsN (of_string "/r/l") true false 0) = Some doc.
+Proof. vm_compute. repeat split; reflexivity. Qed.
